@@ -4,7 +4,7 @@ import os
 import sys
 import time
 
-from . import extract, mir
+from . import extract, inline, mir
 
 VERIF = extract.VERIF
 KNOWN_PATH = os.path.join(VERIF, "known_findings.json")
@@ -103,6 +103,7 @@ class Ctx:
         self.findings = []
         self.rules = {}
         self._facts = {}
+        self._raw = {}
         self.config_meta = {}
         self.unavailable = {}
         self.assumptions = []
@@ -124,9 +125,16 @@ class Ctx:
             except extract.ExtractError as e:
                 self.unavailable[config] = (str(e), e.log[-3000:])
                 raise ConfigUnavailable(config)
-            self._facts[config] = mir.Facts(config, data, meta)
+            raw = mir.Facts(config, data, meta)
+            self._raw[config] = raw
+            self._facts[config] = inline.InlinedFacts(raw)
+            meta["inlined_callers"] = len(self._facts[config].inlined_into)
             self.config_meta[config] = meta
         return self._facts[config]
+
+    def F_raw(self, config):
+        self.F(config)
+        return self._raw[config]
 
     def configs(self, names):
         """yield (name, Facts) for each requested configuration that builds"""
